@@ -20,6 +20,7 @@ type Val struct {
 	tuple []Val
 	fn    *FuncVal
 	iter  *MapIter
+	isAddr bool // t is the address of a local variable: its value is read from the current state
 }
 
 type FuncVal struct {
@@ -659,6 +660,14 @@ func (cx *Ctx) box(v Val) *Term {
 	}
 	// strings, structs, slices, funcs: payload abstracted
 	return w.mkIface(tid, b.Nil(), b.Const("boxed", SBV(64)))
+}
+
+// unboxSt is unbox with access to the heap (boxed slices live in a box object).
+func (cx *Ctx) unboxSt(st *State, i *Term, t types.Type) Val {
+	if cx.w.sortOf(t) == SSlice && st != nil {
+		return Val{t: cx.load(st, cx.w.iptr(i), t), typ: t}
+	}
+	return cx.unbox(i, t)
 }
 
 func (cx *Ctx) unbox(i *Term, t types.Type) Val {
